@@ -786,6 +786,9 @@ def limbs(a):
 
 
 def plan_C18(c):
+    # design level: the macro's own exponent folding agrees with from_str's for every string of the miniature parser machine
+    c.mc('MC_Parser', cfg='MC_Parser_ok' if c.tier == 'quick' else 'MC_Parser_ok_thorough')
+    c.mc('MC_Parser', cfg='MC_Parser_macro_bound', expect='violation')
     pay = c.generate('GenLits', prefix='LIT', cfg='GenLits_' + c.tier)
     lits = sorted(set(l for l in pay if LIT_RE.match(l)))
     c.cov['literals_generated'] = len(pay)
